@@ -30,21 +30,25 @@ TIMEOUT_INCONCLUSIVE = True  # hangs are decided by quiescence in the simulator,
 
 
 def budget(tier):
-    return dict(shards=16, examples=50 if tier == 'quick' else 400)
+    return dict(shards=16, examples=90 if tier == 'quick' else 400)
 
 
 @st.composite
 def _case(draw, tier):
-    m, t, prss = draw(progs.config(min_m=2, max_m=5 if tier == 'quick' else 7))
+    m, t, prss = draw(progs.config(min_m=1, max_m=5 if tier == 'quick' else 7))   # m=1 runs asynchronously too
     l = draw(st.sampled_from([4, 6, 8, 12]))
     nodes = draw(progs.int_program(m, l, max_nodes=6 if tier == 'quick' else 12, heavy=False, awaits=True,
                                    boom=draw(st.integers(0, 3)) == 0))
     if draw(st.booleans()):
         nodes = nodes + [['barrier']]  # a barrier while everything started so far may still be pending
     sched = draw(progs.schedule(m))
+    if sched['mode'] in ('fast', 'rr') and draw(st.booleans()):
+        sched = draw(progs.schedule(m))   # weight the adversarial schedules (starved parties, random walks)
     return dict(m=m, t=t, prss=prss, l=l, seed=draw(st.integers(0, 2**20)), nodes=nodes, sched=sched,
                 out_mode=draw(st.sampled_from(['after_shutdown', 'after_shutdown', 'end'])),
-                no_barrier=False)
+                no_barrier=False,
+                # one-sided pending work at shutdown: outputs that only one party receives
+                receivers=draw(st.sampled_from([None, None, [0], [m - 1]])))
 
 
 def strategy(tier):
@@ -89,7 +93,8 @@ def run_case(case):
         sim.on_close = on_close
 
     try:
-        sim, res, ref = progs.run_int_case(case, on_value=on_value, sim_hook=hook, out_mode=case['out_mode'])
+        sim, res, ref = progs.run_int_case(case, on_value=on_value, sim_hook=hook, out_mode=case['out_mode'],
+                                           receivers=case.get('receivers'))
     finally:
         if 'obs' in holder:
             holder['obs'].close()
@@ -100,6 +105,8 @@ def run_case(case):
     if not res.all_done:
         return Outcome(False, f'shutdown did not complete at every party: {res.describe()}\ncase={case}', labels=labels)
     for i, v in enumerate(res.values):
+        if case.get('receivers') is not None and i not in case['receivers']:
+            continue  # non-receivers obtain None
         msg = progs.compare(case['nodes'], ref, v['outs'])
         if msg:
             return Outcome(False, f'party {i}: {msg}\ncase={case}', labels=labels)
